@@ -192,6 +192,22 @@ func c13Check(c *mc.Ctx, cs c13Case) {
 		c13Dedup(c, cs)
 	case "compress":
 		c13Compress(c, cs)
+	case "sched-compress", "sched-dedup":
+		op := strings.TrimPrefix(cs.Op, "sched-")
+		run := cs
+		run.Op = op
+		mc.SchedProbe(c, "C13/"+op, fmt.Sprintf("%s on a %dx%d alignment", op, len(cs.Seqs), len(cs.Seqs[0])), 1, c13Payload(cs), func() any {
+			sb, err := c13Build(run)
+			if err != nil {
+				return "build:" + err.Error()
+			}
+			if op == "compress" {
+				w := sb.(align.Alignment).Compress()
+				return fmt.Sprint(w, c13RowsStr(c13Read(sb)))
+			}
+			id, err := sb.Deduplicate(false)
+			return fmt.Sprint(id, err, c13RowsStr(c13Read(sb)))
+		}, func(a, b any) bool { return a == b })
 	default:
 		c.Fatal("unknown op %q", cs.Op)
 	}
@@ -1001,6 +1017,47 @@ func c13Tasks(tier string) []mc.Task {
 		}
 	}
 
+	// ---- (D3) many rows: every one-column alignment of 13..16 rows over {A,C} (more rows than the
+	// small-input paths of sorting and hashing code take), both alphabets, both nAsGap values
+	for n := 13; n <= 16; n++ {
+		for _, pf := range []string{"A", "C"} {
+			n, pf := n, pf
+			ts = append(ts, c13SizedTask{1 << n, mc.Task{Name: fmt.Sprintf("dedup-manyrows#n%d/%s", n, pf), Run: func(c *mc.Ctx) {
+				forEachStringLen("AC", n, []byte(pf), func(s []byte) bool {
+					seqs := c13Cut(s, n, 1)
+					c13Check(c, c13Case{Op: "dedup", Kind: "aln", Alpha: align.NUCLEOTIDS, Seqs: seqs})
+					c13Check(c, c13Case{Op: "dedup", Kind: "bag", Alpha: align.AMINOACIDS, NAsGap: true, Seqs: seqs})
+					return !c.Expired()
+				})
+			}}})
+		}
+	}
+	// ---- (S) long inputs under the controlled scheduler: Compress and Deduplicate on 3 x 4500 and 40 x 30
+	// alignments (longer than any block size a parallel version would plausibly use).  Sequential code:
+	// one execution each; code that spawns goroutines: every interleaving within one preemption.
+	ts = append(ts, c13SizedTask{1 << 20, mc.Task{Name: "concurrent#long", Run: func(c *mc.Ctx) {
+		long := func(n, L int) []string {
+			out := make([]string, n)
+			for i := range out {
+				b := make([]byte, L)
+				for j := range b {
+					b[j] = "ACGT-N"[(j*(i+2)+j/7+i*(j/1024))%6]
+				}
+				out[i] = string(b)
+			}
+			return out
+		}
+		for _, sh := range [][2]int{{3, 4500}, {40, 30}} {
+			seqs := long(sh[0], sh[1])
+			for _, op := range []string{"compress", "dedup"} {
+				cs := c13Case{Op: op, Kind: "aln", Alpha: align.NUCLEOTIDS, Seqs: seqs}
+				c13Check(c, cs) // the oracle on the long input, free running
+				cs.Op = "sched-" + op
+				c13Check(c, cs)
+			}
+		}
+	}}})
+
 	sort.SliceStable(ts, func(i, j int) bool { return ts[i].size < ts[j].size })
 	out := make([]mc.Task, len(ts))
 	for i := range ts {
@@ -1013,7 +1070,7 @@ func init() {
 	mc.Register(&mc.Prop{
 		ID:    "C13",
 		Level: "exploration",
-		Rule: "bounded-exhaustive enumeration, nucleotide letters {A,-,N,C,X} / protein letters {A,-,X,C,N} taken as the first k of that list, rows named q,b,z,a,m,c,... with distinct comments. " +
+		Rule: "(also: every one-column alignment of 13..16 rows over {A,C}; Compress and Deduplicate on 3x4500 and 40x30 alignments against the oracle and under the controlled scheduler, preemption bound 1 — one execution unless the operation spawns goroutines;) bounded-exhaustive enumeration, nucleotide letters {A,-,N,C,X} / protein letters {A,-,X,C,N} taken as the first k of that list, rows named q,b,z,a,m,c,... with distinct comments. " +
 			"DEDUP on alignments: every n x L matrix for n<=4, L<=2 (k=5), n<=3, L=3 (k=4), 4x3 (k=3), 5x1, 6x1, 2x4 (k=4), 5x2, 6x2, 2x5, 3x4 (k=3), and the alignment without rows; thorough adds 4x3, 3x4, 5x2, 6x2, 2x5 (k=4), 2x6, 7x2, 5x3 (k=3), 3x3 (k=5). " +
 			"DEDUP on sequence sets (ragged): every n-tuple of strings of length 0..m for (n,m,k) = (1..3,3,4), (4,2,4), (5,2,3), (3,2,5), and the set without sequences; thorough adds (4,3,3), (5,2,4), (3,4,3). " +
 			"Every dedup input is run for both alphabets and both nAsGap values, Deduplicate applied twice. " +
